@@ -224,13 +224,16 @@ def run_pipeline(case, share_opts=False, runner=None):
             out = (runner if runner is not None else ScenarioRunnerNoTrade()).run_model_no_trade(
                 title=title, create_pptx_with_all_countries=False, show_country_figures=False,
                 show_map_figures=False, add_map_slide_to_pptx=False, scenario_option=opts,
-                countries_list=[case["iso"]], return_results=True)
+                countries_list=[case["iso"]], return_results=True, save_all_results=bool(case.get("save_all")))
+
             tr.aggregate = out[1:3]
             tr.returned_countries = sorted(out[3].keys())
             from vlib import workload as _wl
 
             own = {r["iso3"]: r["country"] for r in _wl.country_table()}.get(case["iso"])
             vals = [out[3][own]] if own in out[3] else list(out[3].values())
+            if case.get("save_all"):
+                tr.saved_files = saved_files(tr.scratch, title, own)
             tr.result = vals[0] if vals else None
             if not vals:
                 tr.error = "country not run (no result returned)"
@@ -255,6 +258,27 @@ def run_pipeline(case, share_opts=False, runner=None):
     tr.opts_after = opts
     tr.wall = time.time() - t0
     return tr
+
+
+def saved_files(scratch, title, country=None):
+    """{file name without the title: sha256 of its bytes} for the csv files a run wrote under results/ with save_all_results
+    (optionally only one country's files of a multi-country call)"""
+    import hashlib
+
+    out = {}
+    d = os.path.join(scratch, "results")
+    if not os.path.isdir(d):
+        return out
+    pre = title + "_"
+    for fn in sorted(os.listdir(d)):
+        if not fn.startswith(pre) or not fn.endswith(".csv"):
+            continue
+        rest = fn[len(pre):]
+        if country is not None and not rest.startswith(country + "_"):
+            continue
+        with open(os.path.join(d, fn), "rb") as fh:
+            out[rest] = hashlib.sha256(fh.read()).hexdigest()[:16]
+    return out
 
 
 def failure_class(tr):
